@@ -788,7 +788,9 @@ func (w *l1World) opRole(rt *rapid.T) *l1Step {
 	case "challenger":
 		msg = ophosttypes.NewMsgUpdateChallenger(signer, b.ID, nu.Str)
 	case "batch":
-		msg = ophosttypes.NewMsgUpdateBatchInfo(signer, b.ID, ophosttypes.BatchInfo{Submitter: nu.Str, ChainType: ophosttypes.BatchInfo_ChainType(rapid.IntRange(1, 2).Draw(rt, "chain"))})
+		// the submitter is whatever names the account on the data-availability chain: only "not empty" is required
+		submitter := rapid.SampledFrom([]string{nu.Str, nu.Str, "batch-submitter-01", "celestia1qqqsyqcyq5rqwzqfpg9scrgwpugpzysn3xzs4l", strings.ToUpper(nu.Str), "提出者"}).Draw(rt, "submitter")
+		msg = ophosttypes.NewMsgUpdateBatchInfo(signer, b.ID, ophosttypes.BatchInfo{Submitter: submitter, ChainType: ophosttypes.BatchInfo_ChainType(rapid.IntRange(1, 2).Draw(rt, "chain"))})
 	case "metadata":
 		msg = ophosttypes.NewMsgUpdateMetadata(signer, b.ID, drawMetadataBytes(rt))
 	case "oracle":
